@@ -396,7 +396,7 @@ fn float_lists(tier: Tier) -> &'static FloatLists {
             Tier::Thorough => {
                 let mut v = vec!["".to_string()];
                 v.extend((0..10).map(|i| format!("{i}")));
-                v.extend((0..100).map(|i| format!("{i:02}")));
+                v.extend([0, 1, 5, 9, 10, 11, 15, 16, 17, 20, 22, 23, 30, 37, 38, 39, 44, 45, 46, 99].map(|i| format!("{i:02}")));
                 v
             }
         };
